@@ -1,5 +1,6 @@
 (* Proofs about Model/TunnelRelay.v (C17, the relay's tunnel code). *)
-From Trzsz Require Import Base.Bytes Gen.Consts Model.Tunnel Model.TunnelRelay Proofs.Tunnel.
+From Trzsz Require Import Base.Bytes Gen.Consts Gen.Skel_rtunnel Model.TunnelSkel Model.TunnelRelaySkel
+  Model.Tunnel Model.TunnelRelay Proofs.Tunnel.
 From Coq Require Import ZArith Lia.
 
 Ltac rproj := cbn [r_pairs r_lis r_apc r_connector r_trelay r_era r_tconnected r_parked] in *.
@@ -1033,6 +1034,297 @@ Qed.
    never leaves its loop: Read returns (0, "use of closed network connection"), which is not io.EOF, so
    the loop goes round for ever, whatever anybody else does; and its next iteration is always enabled *)
 
-(*SPIN*)
+Definition rt_spin_pair (d : rt_dir) (p : rt_pair) : Prop :=
+  exists b e, p_br p = Some b /\ rt_src_end d p = Some e /\ h_pump (rt_half_of d b) = PmRun /\ e_closed e = true.
+
+Lemma rt_spinning_iff : forall s c d, rt_spinning s c d <-> exists p, nth_error (r_pairs s) c = Some p /\ rt_spin_pair d p.
+Proof.
+  intros s c d. unfold rt_spinning, rt_spin_pair. split.
+  - intros (p & b & e & H1 & H2). exists p. split; [exact H1|]. exists b, e. exact H2.
+  - intros (p & H1 & b & e & H2). exists p, b, e. split; assumption.
+Qed.
+
+Lemma rt_spin_upd : forall ps c c0 f d p,
+  nth_error ps c = Some p -> rt_spin_pair d p -> (c0 = c -> rt_spin_pair d (f p)) ->
+  exists p', nth_error (upd c0 f ps) c = Some p' /\ rt_spin_pair d p'.
+Proof.
+  intros ps c c0 f d p Hn Hs Hf. rewrite nth_upd. destruct (Nat.eqb c0 c) eqn:E.
+  - apply Nat.eqb_eq in E. rewrite Hn. cbn [option_map]. exists (f p). split; [reflexivity|]. apply Hf. exact E.
+  - exists p. split; assumption.
+Qed.
+
+(* a pair with a bridge is past newTunnelRelay *)
+Lemma rt_local_br_pc : forall c p b, rt_local c p -> p_br p = Some b ->
+  p_pc p = RtCas \/ p_pc p = RtStoreRelay \/ p_pc p = RtGoIn \/ p_pc p = RtGoOut \/ p_pc p = RtCloseLis \/
+  p_pc p = RtCloseC \/ p_pc p = RtCloseS \/ p_pc p = RtDone RoWon \/ p_pc p = RtDone RoLost.
+Proof.
+  intros c p b Hl Hb. unfold rt_local in Hl.
+  pcs p; unf; rewrite ?Hb in *; dex; try discriminate; try contradiction; auto 12.
+Qed.
+
+Ltac spin_fin :=
+  unfold rt_spin_pair in *; dex; setters; pproj;
+  repeat match goal with d : rt_dir |- _ => destruct d end;
+  cbn [rt_src_end rt_dst_end rt_set_src_end rt_set_dst_end rt_tag] in *; setters; pproj; hproj; eproj;
+  repeat match goal with
+         | H : Some _ = Some _ |- _ => injection H as H; try subst
+         | H : p_br _ = Some _, H' : p_br _ = Some _ |- _ => rewrite H in H'
+         | H : p_srv _ = Some _, H' : p_srv _ = Some _ |- _ => rewrite H in H'
+         end;
+  try congruence;
+  try (eexists; eexists; repeat split; pproj; hproj; eproj; eauto; try congruence; fail).
+
+Lemma rt_spin_step : forall s l s' c d, RInv s -> rt_spinning s c d ->
+  rt_step ch1 sh4 ch2 sh3 s l = Some s' -> rt_spinning s' c d.
+Proof.
+  intros s l s' c d Hinv Hspin Hstep. apply rt_spinning_iff in Hspin. apply rt_spinning_iff.
+  destruct Hspin as (p & Hn & Hsp). pose proof Hinv as (HL & _). pose proof (HL c p Hn) as Hl.
+  destruct l as [script|c0|c0|c0| | |c0 dial fail|c0 d0|c0 d0 n park|c0 d0|c0 d0|c0 d0|v|v|d0 bs| ]; unfold rt_step in Hstep.
+  - injection Hstep as <-. unfold rt_with_pairs. rproj. exists p. split; [|exact Hsp].
+    rewrite nth_error_app1; [exact Hn|]. eapply nth_error_lt. exact Hn.
+  - destruct (nth_error (r_pairs s) c0) as [q|] eqn:Eq; [|discriminate Hstep].
+    destruct (rt_end_peer (p_cli q)) as [e1|] eqn:Ee; [|discriminate Hstep]. injection Hstep as <-.
+    unfold rt_upd_pair, rt_with_pairs. rproj. apply (rt_spin_upd _ c c0 _ d p Hn Hsp). intros ->.
+    rewrite Hn in Eq. injection Eq as <-. destruct (rt_end_peer_same _ _ Ee) as [_ Hc]. spin_fin.
+  - destruct (nth_error (r_pairs s) c0) as [q|] eqn:Eq; [|discriminate Hstep].
+    destruct (p_srv q) as [e0|] eqn:Es; [|discriminate Hstep].
+    destruct (rt_end_peer e0) as [e1|] eqn:Ee; [|discriminate Hstep]. injection Hstep as <-.
+    unfold rt_upd_pair, rt_with_pairs. rproj. apply (rt_spin_upd _ c c0 _ d p Hn Hsp). intros ->.
+    rewrite Hn in Eq. injection Eq as <-. destruct (rt_end_peer_same _ _ Ee) as [_ Hc]. spin_fin.
+  - destruct (r_apc s); try discriminate Hstep. destruct (r_lis s); try discriminate Hstep.
+    destruct (nth_error (r_pairs s) c0) as [q|] eqn:Eq; [|discriminate Hstep].
+    destruct (p_pc q); try discriminate Hstep. injection Hstep as <-. rproj.
+    apply (rt_spin_upd _ c c0 _ d p Hn Hsp). intros ->. spin_fin.
+  - destruct (r_apc s); try discriminate Hstep. destruct (r_lis s); try discriminate Hstep.
+    injection Hstep as <-. rproj. exists p. auto.
+  - destruct (r_apc s) as [|c1|] eqn:Ea; try discriminate Hstep. destruct Hinv as (_ & _ & _ & HA).
+    destruct (HA c1 Ea) as (q & Eq & Eqpc).
+    assert (Hne : c1 = c -> False).
+    { intros ->. rewrite Hn in Eq. injection Eq as <-. destruct Hsp as (b & _ & Hb & _).
+      destruct (rt_local_br_pc c p b Hl Hb) as [H|[H|[H|[H|[H|[H|[H|[H|H]]]]]]]]; congruence. }
+    destruct (r_trelay s); injection Hstep as <-; rproj;
+      (apply (rt_spin_upd _ c c1 _ d p Hn Hsp); intros E; exfalso; exact (Hne E)).
+  - destruct (nth_error (r_pairs s) c0) as [q|] eqn:Eq; [|discriminate Hstep].
+    destruct (Nat.eqb c0 c) eqn:Ec.
+    + apply Nat.eqb_eq in Ec. subst c0. rewrite Hn in Eq. injection Eq as <-.
+      pose proof Hsp as (b & e & Hb & He & Hpm & Hcl).
+      unfold rt_handler in Hstep.
+      destruct (rt_local_br_pc c p b Hl Hb) as [H|[H|[H|[H|[H|[H|[H|[H|H]]]]]]]]; rewrite H in Hstep; try discriminate Hstep.
+      * destruct (r_trelay s); injection Hstep as <-; unfold rt_upd_pair, rt_with_pairs; rproj;
+          (apply (rt_spin_upd _ c c _ d p Hn Hsp); intros _; spin_fin).
+      * rewrite Hb in Hstep. injection Hstep as <-. unfold rt_upd_pair, rt_with_pairs. rproj.
+        apply (rt_spin_upd _ c c _ d p Hn Hsp). intros _. spin_fin.
+      * rewrite Hb in Hstep. injection Hstep as <-. unfold rt_upd_pair, rt_with_pairs. rproj.
+        apply (rt_spin_upd _ c c _ d p Hn Hsp). intros _. spin_fin.
+      * rewrite Hb in Hstep. injection Hstep as <-. unfold rt_upd_pair, rt_with_pairs. rproj.
+        apply (rt_spin_upd _ c c _ d p Hn Hsp). intros _. spin_fin.
+      * injection Hstep as <-. rproj. apply (rt_spin_upd _ c c _ d p Hn Hsp). intros _. spin_fin.
+      * rewrite Hb in Hstep. injection Hstep as <-. unfold rt_upd_pair, rt_with_pairs. rproj.
+        apply (rt_spin_upd _ c c _ d p Hn Hsp). intros _. spin_fin.
+      * rewrite Hb in Hstep. injection Hstep as <-. unfold rt_upd_pair, rt_with_pairs. rproj.
+        apply (rt_spin_upd _ c c _ d p Hn Hsp). intros _. spin_fin.
+    + (* another pair's handler: pair c is untouched *)
+      apply Nat.eqb_neq in Ec.
+      assert (Hother : forall f t e k, exists p', nth_error (r_pairs (mkRt (upd c0 f (r_pairs s)) (r_lis s) (r_apc s) (r_connector s) t e k (r_parked s))) c = Some p' /\ rt_spin_pair d p').
+      { intros f t e k. rproj. apply (rt_spin_upd _ c c0 _ d p Hn Hsp). intros E. exfalso. exact (Ec E). }
+      assert (Hres : exists f lis t, s' = mkRt (upd c0 f (r_pairs s)) lis (r_apc s) (r_connector s) t (r_era s) (r_tconnected s) (r_parked s)).
+      { unfold rt_handler, rt_upd_pair, rt_with_pairs in Hstep.
+        destruct (p_pc q) as [ | | | | |r| | | |r| | | | | | | | | |o]; try discriminate Hstep;
+          repeat match type of Hstep with
+                 | match ?x with _ => _ end = _ => destruct x; try discriminate Hstep
+                 | (if ?x then _ else _) = _ => destruct x; try discriminate Hstep
+                 end;
+          injection Hstep as <-; eexists; eexists; eexists; reflexivity. }
+      destruct Hres as (f & lis & t & ->). rproj. apply (rt_spin_upd _ c c0 _ d p Hn Hsp). intros E. exfalso. exact (Ec E).
+  - destruct (nth_error (r_pairs s) c0) as [q|] eqn:Eq; [|discriminate Hstep].
+    destruct (p_br q) as [b0|] eqn:Eb; [|discriminate Hstep]. destruct (rt_dst_end d0 q) as [e0|] eqn:Ee; [|discriminate Hstep].
+    destruct (h_writer (rt_half_of d0 b0)); [|discriminate Hstep].
+    destruct (h_chan (rt_half_of d0 b0)); [destruct (h_chan_closed (rt_half_of d0 b0)); [|discriminate Hstep]|destruct (e_closed e0) eqn:Ec0];
+      injection Hstep as <-; unfold rt_upd_pair, rt_with_pairs; rproj;
+      (apply (rt_spin_upd _ c c0 _ d p Hn Hsp); intros ->; rewrite Hn in Eq; injection Eq as <-; spin_fin).
+  - destruct (nth_error (r_pairs s) c0) as [q|] eqn:Eq; [|discriminate Hstep].
+    destruct (p_br q) as [b0|] eqn:Eb; [|discriminate Hstep]. destruct (rt_src_end d0 q) as [e0|] eqn:Ee; [|discriminate Hstep].
+    destruct (h_pump (rt_half_of d0 b0)) eqn:Ep0; try discriminate Hstep.
+    destruct (e_closed e0) eqn:Ec0; [cbn [negb andb] in Hstep; discriminate Hstep|]. cbn [negb andb] in Hstep.
+    match type of Hstep with (if ?x then _ else _) = _ => destruct x end; [|discriminate Hstep].
+    destruct park; [destruct (b_relay b0)|destruct (rt_chan_has_room (rt_half_of d0 b0))]; try discriminate Hstep;
+      injection Hstep as <-; unfold rt_upd_pair, rt_with_pairs; rproj;
+      (apply (rt_spin_upd _ c c0 _ d p Hn Hsp); intros ->; rewrite Hn in Eq; injection Eq as <-; spin_fin).
+  - destruct (nth_error (r_pairs s) c0) as [q|] eqn:Eq; [|discriminate Hstep].
+    destruct (p_br q) as [b0|] eqn:Eb; [|discriminate Hstep]. destruct (rt_src_end d0 q) as [e0|] eqn:Ee; [|discriminate Hstep].
+    destruct (h_pump (rt_half_of d0 b0)) eqn:Ep0; try discriminate Hstep. destruct (e_rx e0); [|discriminate Hstep].
+    destruct (e_closed e0) eqn:Ec0; [rewrite andb_false_r in Hstep; discriminate Hstep|].
+    destruct (e_eof e0); [|discriminate Hstep]. cbn [negb andb] in Hstep.
+    injection Hstep as <-; unfold rt_upd_pair, rt_with_pairs; rproj;
+      (apply (rt_spin_upd _ c c0 _ d p Hn Hsp); intros ->; rewrite Hn in Eq; injection Eq as <-; spin_fin).
+  - destruct (nth_error (r_pairs s) c0) as [q|] eqn:Eq; [|discriminate Hstep].
+    destruct (p_br q) as [b0|] eqn:Eb; [|discriminate Hstep].
+    destruct (h_pump (rt_half_of d0 b0)) eqn:Ep0; try discriminate Hstep. destruct (b_relay b0); [discriminate Hstep|].
+    injection Hstep as <-; unfold rt_upd_pair, rt_with_pairs; rproj;
+      (apply (rt_spin_upd _ c c0 _ d p Hn Hsp); intros ->; rewrite Hn in Eq; injection Eq as <-; spin_fin).
+  - destruct (nth_error (r_pairs s) c0) as [q|] eqn:Eq; [|discriminate Hstep].
+    destruct (p_br q) as [b0|]; [|discriminate Hstep]. destruct (rt_src_end d0 q) as [e0|]; [|discriminate Hstep].
+    destruct (h_pump (rt_half_of d0 b0)); try discriminate Hstep. destruct (e_closed e0); [|discriminate Hstep].
+    injection Hstep as <-. exists p. auto.
+  - injection Hstep as <-. rproj. exists p. auto.
+  - injection Hstep as <-. rproj. exists p. auto.
+  - destruct (r_trelay s) as [c0|]; [|discriminate Hstep]. destruct (r_tconnected s); [|discriminate Hstep].
+    destruct (nth_error (r_pairs s) c0) as [q|] eqn:Eq; [|discriminate Hstep].
+    destruct (p_br q) as [b0|] eqn:Eb; [|discriminate Hstep].
+    destruct (rt_chan_has_room (rt_half_of d0 b0)); [|discriminate Hstep].
+    injection Hstep as <-; unfold rt_upd_pair, rt_with_pairs; rproj;
+      (apply (rt_spin_upd _ c c0 _ d p Hn Hsp); intros ->; rewrite Hn in Eq; injection Eq as <-; spin_fin).
+  - injection Hstep as <-. rproj. destruct (r_trelay s) as [c0|]; [|exists p; auto].
+    apply (rt_spin_upd _ c c0 _ d p Hn Hsp). intros ->. destruct Hsp as (b & e & Hb & He & Hpm & Hcl). rewrite Hb. spin_fin.
+Qed.
+
+Lemma rt_spins_for_ever : forall ls s s' c d, rt_reach ch1 sh4 ch2 sh3 s -> rt_spinning s c d ->
+  rt_run ch1 sh4 ch2 sh3 s ls = Some s' ->
+  rt_spinning s' c d /\ rt_step ch1 sh4 ch2 sh3 s' (RLPumpSpin c d) = Some s'.
+Proof.
+  intros ls s s' c d Hr. apply rt_reach_inv in Hr. revert s Hr.
+  induction ls as [|l ls IH]; intros s Hinv Hsp Hrun; cbn [rt_run] in Hrun.
+  - injection Hrun as <-. split; [exact Hsp|]. destruct Hsp as (p & b & e & Hn & Hb & He & Hpm & Hcl).
+    unfold rt_step. rewrite Hn, Hb, He, Hpm, Hcl. reflexivity.
+  - destruct (rt_step ch1 sh4 ch2 sh3 s l) as [s1|] eqn:E; [|discriminate Hrun].
+    apply (IH s1); [exact (rt_step_inv s l s1 Hinv E)|exact (rt_spin_step s l s1 c d Hinv Hsp E)|exact Hrun].
+Qed.
+
 
 End RelayProofs.
+
+(* ------------------------------------------------------------------------------------ *)
+(* listenForTunnel's rewrite of the trigger, and the four hellos *)
+
+Lemma rt_rewrite_fmt_src_ok : fmt_verbs Consts.rtunnel_rewrite_fmt = [115; 100].
+Proof. reflexivity. Qed.
+
+Lemma rt_port_tag_eq : forall uid port, rt_port_tag uid port = 58 :: uid ++ 58 :: (dec_Z port ++ []).
+Proof. reflexivity. Qed.
+
+Lemma rt_is_prefix_app : forall p s, rt_is_prefix p (p ++ s) = true.
+Proof.
+  induction p as [|a p IH]; intros s; cbn [rt_is_prefix app]; [reflexivity|].
+  rewrite N.eqb_refl. cbn [andb]. apply IH.
+Qed.
+
+Lemma rt_replace_all_skip : forall pat rep l post,
+  rt_replace_all pat rep (l ++ post) (length l) = rt_replace_all pat rep post 0.
+Proof.
+  intros pat rep. induction l as [|a l IH]; intros post; cbn [app length rt_replace_all]; [|apply IH].
+  destruct post; reflexivity.
+Qed.
+
+(* the first occurrence of the pattern is replaced, everything before it is kept, the rest is rewritten in turn *)
+Lemma rt_replace_all_first : forall pat rep pre post, pat <> [] ->
+  (forall i, (i < length pre)%nat -> rt_is_prefix pat (skipn i (pre ++ pat ++ post)) = false) ->
+  rt_replace_all pat rep (pre ++ pat ++ post) 0 = pre ++ rep ++ rt_replace_all pat rep post 0.
+Proof.
+  intros pat rep pre post Hne. induction pre as [|b pre IH]; intros Hno.
+  - cbn [app]. destruct pat as [|a pat]; [contradiction|]. cbn [app rt_replace_all].
+    change (a :: pat ++ post) with ((a :: pat) ++ post). rewrite rt_is_prefix_app.
+    replace (length (a :: pat) - 1)%nat with (length pat) by (cbn [length]; lia).
+    rewrite rt_replace_all_skip. reflexivity.
+  - cbn [app rt_replace_all]. pose proof (Hno 0%nat) as H0. cbn [skipn length app] in H0. rewrite H0; [|lia].
+    f_equal. apply IH. intros i Hi. apply (Hno (S i)). cbn [length]. lia.
+Qed.
+
+Lemma rt_rewrite_first : forall uid sport rport pre post,
+  (forall i, (i < length pre)%nat -> rt_is_prefix (rt_port_tag uid sport) (skipn i (pre ++ rt_port_tag uid sport ++ post)) = false) ->
+  rt_rewrite uid sport rport (pre ++ rt_port_tag uid sport ++ post) =
+  pre ++ rt_port_tag uid rport ++ rt_rewrite uid sport rport post.
+Proof.
+  intros uid sport rport pre post Hno. unfold rt_rewrite. apply rt_replace_all_first; [|exact Hno].
+  rewrite rt_port_tag_eq. discriminate.
+Qed.
+
+Lemma server_hello_eq : forall uid port,
+  server_hello uid port =
+  [58; 58; 84; 82; 90; 83; 90; 58; 58; 83; 69; 82; 86; 69; 82; 58; 58; 72; 69; 76; 76; 79; 58; 58]
+    ++ cut_uid uid ++ 58 :: (dec_Z port ++ []).
+Proof. reflexivity. Qed.
+
+Lemma server_hello_injective : forall uid1 uid2 port1 port2,
+  server_hello uid1 port1 = server_hello uid2 port2 ->
+  forallb is_digit (cut_uid uid1) = true -> forallb is_digit (cut_uid uid2) = true ->
+  cut_uid uid1 = cut_uid uid2 /\ port1 = port2.
+Proof.
+  intros uid1 uid2 port1 port2 E H1 H2. rewrite !server_hello_eq in E.
+  apply app_inv_head in E. apply digits_sep in E; [|exact H1|exact H2].
+  destruct E as [Eu Ed]. split; [exact Eu|]. rewrite !app_nil_r in Ed. apply dec_Z_inj. exact Ed.
+Qed.
+
+Lemma client_server_hello_differ : forall uid1 uid2 port1 port2, client_hello uid1 port1 <> server_hello uid2 port2.
+Proof. intros uid1 uid2 port1 port2 E. rewrite client_hello_eq, server_hello_eq in E. cbn [app] in E. discriminate E. Qed.
+
+(* a greeting computed from the port the SERVER announced is not the one the relay expects: without the
+   rewrite of the trigger the genuine client would be turned away *)
+Lemma rt_unrewritten_rejected : forall uid sport rport,
+  forallb is_digit (cut_uid uid) = true -> sport <> rport ->
+  hello_matches (client_hello uid sport) (client_hello uid rport) = false /\
+  hello_matches (server_hello uid rport) (server_hello uid sport) = false.
+Proof.
+  intros uid sport rport Hd Hne.
+  assert (Hf : forall got e, got <> e -> hello_matches got e = false)
+    by (intros got e H; apply hello_matches_false; congruence).
+  split; apply Hf; intros E.
+  - apply hello_injective in E; [|exact Hd|exact Hd]. destruct E as [_ E]. exact (Hne E).
+  - apply server_hello_injective in E; [|exact Hd|exact Hd]. destruct E as [_ E]. exact (Hne (eq_sym E)).
+Qed.
+
+(* ------------------------------------------------------------------------------------ *)
+(* the regenerated statement skeleton is the one the model transcribes *)
+
+Lemma rt_skel_matches :
+  rt_set_tunnel_connector_skel = expected_rt_set_tunnel_connector /\
+  rt_listen_for_tunnel_skel = expected_rt_listen_for_tunnel /\
+  rt_accept_on_tunnel_skel = expected_rt_accept_on_tunnel /\
+  rt_handle_tunnel_conn_skel = expected_rt_handle_tunnel_conn /\
+  rt_new_tunnel_relay_skel = expected_rt_new_tunnel_relay /\
+  rt_wrap_input_skel = expected_rt_wrap_input /\
+  rt_wrap_output_skel = expected_rt_wrap_output /\
+  rt_reset_to_standby_skel = expected_rt_reset_to_standby /\
+  rt_sites_bufchan_send = expected_rt_sites_bufchan_send /\
+  rt_sites_atomic_writes = expected_rt_sites_atomic_writes /\
+  rt_sites_plain_writes = expected_rt_sites_plain_writes /\
+  rt_sites_starts = expected_rt_sites_starts.
+Proof. repeat split; reflexivity. Qed.
+
+(* ------------------------------------------------------------------------------------ *)
+(* a concrete instance (used by the examples of Props/C17.v) and the refutation of "at most one EVER" *)
+
+Definition exr_uid : list N := [49; 55; 50; 55; 55; 50; 52; 56; 48; 48; 49; 50; 48].   (* "1727724800120" as a relay rewrites it *)
+Definition exr_sport : Z := 40001%Z.
+Definition exr_rport : Z := 40002%Z.
+Definition exr_ch1 := client_hello exr_uid exr_rport.
+Definition exr_sh4 := server_hello exr_uid exr_rport.
+Definition exr_ch2 := client_hello exr_uid exr_sport.
+Definition exr_sh3 := server_hello exr_uid exr_sport.
+Definition exr_H (c : nat) : rt_label := RLHandler c None false.
+(* handleTunnelConn of c from its first statement to the compare-and-swap, the connector returning a
+   connection that behaves as [script] says *)
+Definition exr_greet (c : nat) (script : list pev) : list rt_label :=
+  [exr_H c; exr_H c; exr_H c; RLHandler c (Some script) false; exr_H c; RLPeerS c; exr_H c; exr_H c; exr_H c; exr_H c].
+
+
+Lemma rt_at_most_one_ever_refuted :
+  exists ls s p0 p1, rt_run exr_ch1 exr_sh4 exr_ch2 exr_sh3 rt_init ls = Some s /\
+    r_pairs s = [p0; p1] /\ p_won p0 = Some 0%nat /\ p_won p1 = Some 1%nat /\ r_trelay s = Some 1%nat.
+Proof.
+  exists ([RLConnect [PWrite exr_ch1]; RLConnect [PWrite exr_ch1]; RLAccept 0; RLCheck; RLAccept 1; RLCheck; RLPeerC 0]
+          ++ exr_greet 0 [PWrite exr_sh3] ++ [exr_H 0; exr_H 0; exr_H 0; exr_H 0; exr_H 0; RLReset; RLPeerC 1]
+          ++ exr_greet 1 [PWrite exr_sh3] ++ [exr_H 1]).
+  vm_compute. do 3 eexists. repeat split.
+Qed.
+
+Lemma rt_at_most_one_ever_false :
+  ~ (forall s c1 c2 p1 p2, rt_reach exr_ch1 exr_sh4 exr_ch2 exr_sh3 s ->
+       nth_error (r_pairs s) c1 = Some p1 -> nth_error (r_pairs s) c2 = Some p2 ->
+       p_won p1 <> None -> p_won p2 <> None -> c1 = c2).
+Proof.
+  intros H. destruct rt_at_most_one_ever_refuted as (ls & s & p0 & p1 & Hrun & Hps & W0 & W1 & _).
+  assert (E : 0%nat = 1%nat).
+  { apply (H s 0%nat 1%nat p0 p1); [exists ls; exact Hrun|rewrite Hps; reflexivity|rewrite Hps; reflexivity| |];
+      congruence. }
+  discriminate E.
+Qed.
